@@ -1,6 +1,6 @@
 (* Property C15 - model of PointOnSurface over exact rationals.
-   Transcribed from geom/alg_point_on_surface.go (nearestPointAccumulator, pointOnAreaSurface,
-   sortAndUniquifyFloats), type_point.go / type_multi_point.go / type_line_string.go /
+   Transcribed from geom/alg_point_on_surface.go (nearestPointAccumulator, pointOnAreaSurface; with
+   fix F150 the intercepts are sorted and not de-duplicated), type_point.go / type_multi_point.go / type_line_string.go /
    type_multi_line_string.go / type_polygon.go / type_multi_polygon.go /
    type_geometry_collection.go : PointOnSurface, type_geometry.go:PointOnSurface.
 
@@ -86,6 +86,15 @@ Definition intercept (bis : seg) (e : seg) : list Q :=
 Definition raw_intercepts (bis : seg) (rings : list (lineT Q)) : list Q :=
   flat_map (fun r => flat_map (intercept bis) (ring_lines r)) rings.
 
+(* sort.Float64s(xIntercepts): ascending, equal values kept (the intercepts are NOT de-duplicated:
+   fix F150) *)
+Fixpoint qisert (x : Q) (l : list Q) : list Q :=
+  match l with
+  | [] => [x]
+  | y :: r => if Qle_bool x y then x :: l else y :: qisert x r
+  end.
+Definition isort (l : list Q) : list Q := fold_right qisert [] l.
+
 (* the loop over pairs: strictly wider replaces *)
 Fixpoint best_pair (bestA bestB : Q) (xs : list Q) : Q * Q :=
   match xs with
@@ -97,7 +106,7 @@ Fixpoint best_pair (bestA bestB : Q) (xs : list Q) : Q * Q :=
 Record row_info := MkRow {
   r_y : Q;                  (* ordinate of the bisector *)
   r_bis : seg;              (* the bisector *)
-  r_xs : list Q }.          (* sortAndUniquifyFloats(xIntercepts) *)
+  r_xs : list Q }.          (* the sorted xIntercepts *)
 
 Definition poly_row (y : polyT Q) : option row_info :=
   match poly_rings y with
@@ -115,7 +124,7 @@ Definition poly_row (y : polyT Q) : option row_info :=
           | None => None
           | Some my =>
               let bis := ((xmin - 1, my), (xmax + 1, my)) in
-              Some (MkRow my bis (qsort (raw_intercepts bis (poly_rings y))))
+              Some (MkRow my bis (isort (raw_intercepts bis (poly_rings y))))
           end
       end
   end.
@@ -124,7 +133,8 @@ Definition poly_row (y : polyT Q) : option row_info :=
 Definition xs_regular (xs : list Q) : bool :=
   (2 <=? length xs)%nat && Nat.even (length xs).
 
-(* pointOnAreaSurface: (point, width) *)
+(* pointOnAreaSurface: (point, width). The fall-back point is ExteriorRing().StartPoint().Force2D() *)
+Definition area_fallback (shell : lineT Q) : pointT Q * Q := (point2d (start_point shell), 0).
 Definition point_on_area (y : polyT Q) : pointT Q * Q :=
   match poly_rings y with
   | [] => (empty_point, 0)                                   (* empty envelope: Point{}, 0 *)
@@ -133,27 +143,29 @@ Definition point_on_area (y : polyT Q) : pointT Q * Q :=
       | [] => (empty_point, 0)
       | _ =>
           match poly_row y with
-          | None => (start_point shell, 0)                   (* +Inf row: no intercepts *)
+          | None => area_fallback shell                      (* +Inf row: no intercepts *)
           | Some ri =>
               if xs_regular (r_xs ri) then
                 match r_xs ri with
                 | a :: b :: rest =>
                     let '(bestA, bestB) := best_pair a b rest in
-                    (xy_point ((bestA + bestB) / 2, r_y ri), bestB - bestA)
-                | _ => (start_point shell, 0)
+                    if Qeq_bool bestA bestB then area_fallback shell       (* zero width (F150) *)
+                    else (xy_point ((bestA + bestB) / 2, r_y ri), bestB - bestA)
+                | _ => area_fallback shell
                 end
-              else (start_point shell, 0)                    (* ExteriorRing().StartPoint(), 0 *)
+              else area_fallback shell                       (* len < 2 or odd *)
           end
       end
   end.
 
-(* type_multi_polygon.go:PointOnSurface *)
+(* type_multi_polygon.go:PointOnSurface (with fix F151: the first non-empty candidate is always
+   taken, a later one replaces it only when strictly wider) *)
+Definition mp_step (st : pointT Q * Q) (y : polyT Q) : pointT Q * Q :=
+  let '(p, w) := point_on_area y in
+  if point_empty p then st
+  else if point_empty (fst st) || qltb (snd st) w then (p, w) else st.
 Definition mpoly_pos (ys : list (polyT Q)) : pointT Q :=
-  fst (fold_left (fun (st : pointT Q * Q) y =>
-                    let '(p, w) := point_on_area y in
-                    if point_empty p then st
-                    else if qltb (snd st) w then (p, w) else st)
-                 ys (empty_point, 0)).
+  fst (fold_left mp_step ys (empty_point, 0)).
 
 Section Pos.
   Variable cen : geom -> option pt.        (* Centroid().XY() *)
@@ -234,6 +246,16 @@ Definition pos_ok (g : geom) (q : pointT Q) : bool :=
            existsb (fun l => negb (is_empty l) && Nat.eqb (dim_ie l) (dim_ie g) && pos_leaf_ok l p) lv
        end.
 
+(* the weaker clause that holds without any clearance: emptiness agrees and the point intersects a
+   non-empty leaf of the highest dimension (used for polygons thinner than the float spacing) *)
+Definition pos_intersects (g : geom) (q : pointT Q) : bool :=
+  if is_empty g then point_empty q
+  else match point_xy q with
+       | None => false
+       | Some p =>
+           existsb (fun l => negb (is_empty l) && Nat.eqb (dim_ie l) (dim_ie g) && inG l p) (leaves g)
+       end.
+
 (* ------------------------------------------------------------------ hypotheses of pos_areal_interior *)
 (* (consequences of polygon validity, stated with the model's own quantities; all but valid_nesting
    are decidable and are evaluated per case by the correspondence driver) *)
@@ -285,12 +307,6 @@ Definition nesting_atb (y : polyT Q) (p : pt) : bool :=
       Nat.leb k 1 && (negb (Nat.eqb k 1) || edges_parity sh p)
   end.
 
-(* domain of pos_empty_iff: every non-empty MultiPolygon leaf has a member whose bisector meets
-   the rings in an even, non-zero number of points (true for valid polygons) *)
+(* the bisector meets the rings in an even, non-zero number of points *)
 Definition row_regular (y : polyT Q) : bool :=
   match poly_row y with Some ri => xs_regular (r_xs ri) | None => false end.
-Definition pos_dom (g : geom) : bool :=
-  forallb (fun l => match l with
-                    | GMPoly _ ys => is_empty l || existsb row_regular ys
-                    | _ => true
-                    end) (leaves g).
